@@ -110,6 +110,17 @@ emit(pcall(error, {1})); emit(select("#", pcall(error)))
 local ok, msg = pcall(function() local x = nil; return x.y end); emit(ok, msg)
 emit(load("return 1 + 1")(), load("syntax error here"), type(_G), _VERSION)
 goto done; emit("skipped"); ::done:: emit(os.time({year = 2020, month = 1, day = 1, hour = 0}) ~= nil, type(os.clock()))`,
+	// the compiler front end under load: every kind of escape sequence and numeral, compiled
+	// again and again through load() (all runtimes share the scanner/parser/compiler code)
+	`emit("\u{48}\u{E4}\u{20AC}\u{1F600}|\x41\65\z
+      \u{7FFFFFFF}|\u{10FFFF}", #"\u{800}\u{7FF}\u{10000}", 0x7fffffffffffffff, 0x1p-2, 1e2, 0xA.8p0, [==[
+long]==])
+for i = 1, 40 do
+  local cp = 0x80 + i * 1777
+  local src = "return '\\u{" .. string.format("%X", cp) .. "}\\u{41}\\u{" .. string.format("%X", i) .. "}', " .. i .. ", 0x" .. string.format("%x", cp) .. ", '\\" .. (65 + i % 20) .. "'"
+  local a, b, c, d = load(src)()
+  if i % 4 == 0 then emit(a == utf8.char(cp, 65, i), b, c, d) end
+end`,
 }
 
 // hostile steps, each a chunk run in RB.
@@ -203,7 +214,13 @@ func victimsFor(c *vp.Child, n int, salt int64) []victim {
 	}
 	for i := 0; len(vs) < n; i++ {
 		p, r := eng.GenProgram(c.Seed, 20+salt, i, nil)
-		text, lines := lg.Render(p.Chunk, lg.Style{})
+		// every other generated victim is rendered with alternative literal spellings
+		// (escapes, hex numerals, long brackets), which exercise more of the front end
+		st := lg.Style{}
+		if i%2 == 1 {
+			st = lg.Style{AltLiteral: true, Semis: true, Rnd: rand.New(rand.NewSource(c.Seed*7919 + int64(i)))}
+		}
+		text, lines := lg.Render(p.Chunk, st)
 		args := eng.ArgsFor(r, p.ArgKinds)
 		// only programs the reference interpreter can finish within its fuel
 		// (no verdict is taken from it here): the others may not terminate
